@@ -4,6 +4,7 @@ import (
 	"bytes"
 	"errors"
 	"fmt"
+	"io"
 	"sort"
 	"sync"
 
@@ -230,11 +231,37 @@ type StoreCall struct {
 
 var ErrInjected = errors.New("injected storage fault")
 
+// faultErr is the injected fault in the guise of an error a real storage may
+// hand up: it IS ErrInjected and, for ErrKind 1 and 2, also wraps io.EOF /
+// io.ErrUnexpectedEOF (a dropped connection). The Storage contract signals the
+// end of a cursor with a nil key, never with an error, so these are faults too.
+type faultErr struct{ also error }
+
+func (e faultErr) Error() string {
+	if e.also == nil {
+		return ErrInjected.Error()
+	}
+	return ErrInjected.Error() + ": " + e.also.Error()
+}
+func (e faultErr) Is(t error) bool { return t == ErrInjected }
+func (e faultErr) Unwrap() error   { return e.also }
+
+func (in *Instr) fault() error {
+	switch in.ErrKind {
+	case 1:
+		return faultErr{io.EOF}
+	case 2:
+		return faultErr{io.ErrUnexpectedEOF}
+	}
+	return ErrInjected
+}
+
 type Instr struct {
 	S       *Store
 	mu      sync.Mutex
 	Log     []StoreCall
 	FailAt  int // index of the call that fails; -1 = none
+	ErrKind int // guise of the injected fault (see faultErr)
 	Failed  bool
 	AfterFn func() // optional hook after each call (unused by default)
 }
@@ -274,14 +301,14 @@ func (in *Instr) Calls() []StoreCall {
 
 func (in *Instr) Get(key []byte) ([]byte, error) {
 	if _, fail := in.record(StoreCall{Op: "Get", Keys: []string{string(key)}}); fail {
-		return nil, ErrInjected
+		return nil, in.fault()
 	}
 	return in.S.Get(key)
 }
 
 func (in *Instr) Put(key, value []byte) error {
 	if _, fail := in.record(StoreCall{Op: "Put", Keys: []string{string(key), string(value)}}); fail {
-		return ErrInjected
+		return in.fault()
 	}
 	return in.S.Put(key, value)
 }
@@ -292,14 +319,14 @@ func (in *Instr) BatchPut(kvs []kvql.KVPair) error {
 		keys = append(keys, string(kv.Key), string(kv.Value))
 	}
 	if _, fail := in.record(StoreCall{Op: "BatchPut", Keys: keys}); fail {
-		return ErrInjected
+		return in.fault()
 	}
 	return in.S.BatchPut(kvs)
 }
 
 func (in *Instr) Delete(key []byte) error {
 	if _, fail := in.record(StoreCall{Op: "Delete", Keys: []string{string(key)}}); fail {
-		return ErrInjected
+		return in.fault()
 	}
 	return in.S.Delete(key)
 }
@@ -310,14 +337,14 @@ func (in *Instr) BatchDelete(keys [][]byte) error {
 		ks[i] = string(k)
 	}
 	if _, fail := in.record(StoreCall{Op: "BatchDelete", Keys: ks}); fail {
-		return ErrInjected
+		return in.fault()
 	}
 	return in.S.BatchDelete(keys)
 }
 
 func (in *Instr) Cursor() (kvql.Cursor, error) {
 	if _, fail := in.record(StoreCall{Op: "Cursor"}); fail {
-		return nil, ErrInjected
+		return nil, in.fault()
 	}
 	c, err := in.S.Cursor()
 	if err != nil {
@@ -333,7 +360,7 @@ type instrCursor struct {
 
 func (c *instrCursor) Seek(prefix []byte) error {
 	if _, fail := c.in.record(StoreCall{Op: "Seek", Keys: []string{string(prefix)}}); fail {
-		return ErrInjected
+		return c.in.fault()
 	}
 	return c.c.Seek(prefix)
 }
@@ -341,7 +368,7 @@ func (c *instrCursor) Seek(prefix []byte) error {
 func (c *instrCursor) Next() ([]byte, []byte, error) {
 	idx, fail := c.in.record(StoreCall{Op: "Next"})
 	if fail {
-		return nil, nil, ErrInjected
+		return nil, nil, c.in.fault()
 	}
 	k, v, err := c.c.Next()
 	c.in.setRet(idx, string(k), k == nil)
